@@ -340,7 +340,7 @@ func cmdDrive(args []string) {
 	case "C06":
 		must = []string{"probe.rerenders", "probe.stale_tree_renders", "probe.ops_after_failed_op", "probe.same_doc_back_to_back", "probe.renders_by_other_renderer", "probe.renders_after_other_renderer", "probe.gap_runs", "probe.gap_runs_storm_of_failing_calls", "probe.near_miss_runs", "probe.histories_longer_than_255_ops", "probe.cfg_error_returning_node_renderers", "op.Convert", "op.PkgConvert", "op.Parse", "op.Render", "op.ParseRender"}
 	case "C15":
-		must = []string{"probe.c15_docs_with_slug_collision", "probe.c15_docs_with_suffix_collision", "probe.ops_after_failed_op", "probe.gap_runs", "probe.histories_longer_than_255_ops", "c15.docs_with_2plus_headings", "probe.preemptions", "sched.c15_ops_judged"}
+		must = []string{"probe.c15_docs_with_slug_collision", "probe.c15_docs_with_suffix_collision", "probe.ops_after_failed_op", "probe.gap_runs", "probe.histories_longer_than_255_ops", "probe.c15_docs_with_more_than_65536_ids", "c15.docs_with_2plus_headings", "probe.preemptions", "sched.c15_ops_judged"}
 	case "C07":
 		must = []string{"probe.once_contended", "probe.once_blocked", "probe.preemptions", "probe.mid_init_switch", "cold_start_runs", "fresh_instance_runs", "overlap.parse|parse", "overlap.parse|render", "overlap.render|render", "op.AuxConvert", "op.Convert", "op.ParseRender", "op.PkgConvert", "op.ParseOnly", "op.RenderPre", "fired.stall", "probe.stalled_worker_released_after_all_others_finished"}
 	}
